@@ -2,6 +2,7 @@ import OpusProofs.EncSkelWfLow
 import OpusProofs.EncSkelWfMulti
 import OpusProofs.EncSkelWfSingle
 import OpusProofs.EncSkelWfMultiPad
+import OpusProofs.EncSkelWfLowEnc
 import OpusProps.C02
 /-
   Property C02, slice `Wf` — packet well-formedness of EVERY output shape of the encoder skeleton, with NO
@@ -344,6 +345,39 @@ example : takesMulti OpusProps.C02.exSt false 2880 4000 (OpusProps.C02.exOr 158)
         (effSilence (budgetSt OpusProps.C02.exSt (OpusProps.C02.exOr 158) 2880 4000) (OpusProps.C02.exOr 158)) 3 0
         (OpusProps.C02.exOr 158).frames
         (acc0 (multiSt0 (decOf OpusProps.C02.exSt false 2880 4000 (OpusProps.C02.exOr 158)).st))) = 0 := by
+  decide +kernel
+
+/-- `wellformed_low_budget` for `opus_encode_native` itself (opus_encoder.c:1270-1332).  Whenever the low-budget gate
+    fires (`max_data_bytes < 3`, or too few bits for the frame rate), for every state within the skeleton invariant and
+    every success return: the packet holds the empty frames `lowLens`; with VBR, or when there is no room beyond the
+    1 or 2 ToC-only bytes, the return value is 1 or 2 and the emitted bytes are the ToC-only packet `lowHdr0` (code 0,
+    code 1, or code 3 with M empty frames); in CBR with more room the return value is `max_data_bytes` and the emitted
+    bytes are EXACTLY what `opus_packet_pad` (C07 model `Repack.packetPad`) returns for that ToC-only packet and
+    `max_data_bytes`.  (`wellformed_low_budget` / `encode_wellformed` show both parse with count · spf = frame_size.) -/
+theorem encode_wellformed_low_budget (s : St) (fuzz : Bool) (fsz out : Int) (o : NatOr)
+    (he : entryCheck s fsz out = none)
+    (hlow : lowBudgetGate (budgetSt s o fsz out) fsz (sizeBudget (analysisUpd s o) fsz out) = true)
+    (hok : (encodeNative s fuzz fsz out o).ok = true) :
+    (encodeNative s fuzz fsz out o).pkt.lens = lowLens (budgetSt s o fsz out) fsz out ∧
+    ((budgetSt s o fsz out).useVbr ≠ 0 ∨
+        (sizeBudget (analysisUpd s o) fsz out).maxDataBytes ≤ lowRet0 (budgetSt s o fsz out) fsz out →
+      (encodeNative s fuzz fsz out o).ret = lowRet0 (budgetSt s o fsz out) fsz out ∧
+      pktBytes (encodeNative s fuzz fsz out o).pkt.hdr (lowFrames (budgetSt s o fsz out) fsz out)
+        (encodeNative s fuzz fsz out o).pkt.size = lowHdr0 (budgetSt s o fsz out) fsz out) ∧
+    ((budgetSt s o fsz out).useVbr = 0 →
+        lowRet0 (budgetSt s o fsz out) fsz out < (sizeBudget (analysisUpd s o) fsz out).maxDataBytes →
+      (encodeNative s fuzz fsz out o).ret = (sizeBudget (analysisUpd s o) fsz out).maxDataBytes ∧
+      packetPad (lowHdr0 (budgetSt s o fsz out) fsz out) (sizeBudget (analysisUpd s o) fsz out).maxDataBytes =
+        .ok (pktBytes (encodeNative s fuzz fsz out o).pkt.hdr (lowFrames (budgetSt s o fsz out) fsz out)
+          (encodeNative s fuzz fsz out o).pkt.size)) :=
+  encode_low_wf s fuzz fsz out o he hlow hok
+
+/-- the CBR example encoder with 2 bytes of space (20 ms): the gate fires, the call succeeds with 2 bytes. -/
+example : entryCheck OpusProps.C02.exSt 960 2 = none ∧
+    lowBudgetGate (budgetSt OpusProps.C02.exSt (OpusProps.C02.exOr 0) 960 2) 960
+      (sizeBudget (analysisUpd OpusProps.C02.exSt (OpusProps.C02.exOr 0)) 960 2) = true ∧
+    (encodeNative OpusProps.C02.exSt false 960 2 (OpusProps.C02.exOr 0)).ok = true ∧
+    (encodeNative OpusProps.C02.exSt false 960 2 (OpusProps.C02.exOr 0)).ret = 2 := by
   decide +kernel
 
 end OpusProps.C02Wf
